@@ -18,7 +18,9 @@ enum OpCode : int {
     // sets / maps
     INS, DEL, HAS, UPD_INS, UPD_NOINS, EXTRACT, GET, INS_F, DEL_F, FIND_F, EMPLACE, UNLINK, EXT_MIN, EXT_MAX,
     // misc
-    FRONT, POP_FRONT, SIZE, EMPTY, CLEAR
+    FRONT, POP_FRONT, SIZE, EMPTY, CLEAR,
+    // iteration with a thread-safe iterator (not an atomic operation: judged by interval rules, C19); argument: key to erase_at(), 0 = none
+    ITER, RITER
 };
 
 inline const char* op_name( int op )
@@ -30,6 +32,7 @@ inline const char* op_name( int op )
     case INS: return "ins"; case DEL: return "del"; case HAS: return "has"; case UPD_INS: return "upsert"; case UPD_NOINS: return "update";
     case EXTRACT: return "extract"; case GET: return "get"; case INS_F: return "ins_f"; case DEL_F: return "del_f"; case FIND_F: return "find_f";
     case EMPLACE: return "emplace"; case UNLINK: return "unlink"; case EXT_MIN: return "extract_min"; case EXT_MAX: return "extract_max";
+    case ITER: return "iter"; case RITER: return "riter";
     case FRONT: return "front"; case POP_FRONT: return "pop_front1"; case SIZE: return "size"; case EMPTY: return "empty"; case CLEAR: return "clear";
     }
     return "?";
@@ -229,6 +232,7 @@ struct SetSpec {
         case EMPTY: return ( m.empty() ? 1 : 0 ) == o.res;
         case SIZE: return long( m.size()) == o.res;
         case CLEAR: m.clear(); return true;
+        case ITER: case RITER: return true;     // not atomic: checked by the interval rules of the harness
         }
         return false;
     }
